@@ -58,19 +58,19 @@ def gen_histories(rep, rd, n, only_hash=False):
     rep.add_tlc(stats_of(res))
     # focused histories: few operations (compose, quotient, elim_refine, merge, copy) on a pool of three values, so that
     # the same call recurs within a session and state carried from one call to the next shows
-    res = run_tlc("Session", "Session_focus.cfg", rd, workers=1, simulate="num=%d" % (n // 2 + 8), depth=28, timeout=900)
+    res = run_tlc("Session", "Session_focus.cfg", rd, workers=1, simulate="num=%d" % (n + 8), depth=28, timeout=900)
     fs, seen2 = [], set()
     for m in re.finditer(r'<<"HISTORY", "(.*?)">>\s*$', res["out"], re.M):
         s = m.group(1).encode().decode("unicode_escape")
         if s not in seen2:
             seen2.add(s)
             fs.append({"focus": True, "hist": json.loads(s)})
-        if len(fs) >= n // 2:
+        if len(fs) >= n:
             break
     rep.add_tlc(stats_of(res))
     # histories around the one operation that edits its target (IoContract.simplify()) on contracts stored unsimplified
-    return ([{"focus": False, "hist": h} for h in hs] + fs + simulate(rep, rd, "Session_hash.cfg", n // 4, 32, "hash")
-            + simulate(rep, rd, "Session_terms.cfg", n // 4, 32, "terms"))     # the term-level API on lists whose coefficients can cancel
+    return ([{"focus": False, "hist": h} for h in hs] + fs + simulate(rep, rd, "Session_hash.cfg", n // 2, 32, "hash")
+            + simulate(rep, rd, "Session_terms.cfg", n // 2, 32, "terms"))     # the term-level API on lists whose coefficients can cancel
 
 
 def run_case(case):
